@@ -51,21 +51,22 @@ type Contract struct {
 	Ensures     []*Clause
 	// LocalEnsures: `A ==> B` where A speaks about parameters/results and B may mention locals; at a return
 	// site where B's locals are not in scope the obligation is "A is false here".
-	LocalEnsures []*Clause
-	GhostEnsures []*Clause
-	Modifies     []*Clause
-	HasModifies  bool
-	Loops        map[int]*LoopSpec
-	CallAsserts  []*CallAssert
-	Callback     map[int]*LoopSpec // callback invariants keyed by closure ordinal
-	Ctx          *PkgCtx
-	Where        string
-	NoOverflow   bool
-	OSCalls      []string
-	OSCallsLabel string
-	HasOSCalls   bool
+	LocalEnsures  []*Clause
+	GhostEnsures  []*Clause
+	Modifies      []*Clause
+	HasModifies   bool
+	Loops         map[int]*LoopSpec
+	CallAsserts   []*CallAssert
+	Callback      map[int]*LoopSpec // callback invariants keyed by closure ordinal
+	Ctx           *PkgCtx
+	Where         string
+	NoOverflow    bool
+	OSCalls       []string
+	OSCallsLabel  string
+	HasOSCalls    bool
 	CallbackParam string
-	Interf       bool // interference fs
+	DeadReturns   []string
+	Interf        bool // interference fs
 }
 
 type PureFunc struct {
@@ -520,6 +521,11 @@ func (S *Specs) parseLines(lines []rawLine, ctx *PkgCtx, pkgShort string, extern
 			if cur != nil {
 				cur.CallbackParam = strings.TrimSpace(rest)
 			}
+		case "dead-return":
+			// dead-return from <callee>: a return that passes on an error produced by <callee> may be unreachable
+			if cur != nil {
+				cur.DeadReturns = append(cur.DeadReturns, strings.TrimSpace(strings.TrimPrefix(rest, "from")))
+			}
 		case "nooverflow":
 			if cur != nil {
 				cur.NoOverflow = true
@@ -820,7 +826,7 @@ func resolveTypeExpr(ctx *PkgCtx, e ast.Expr) (types.Type, error) {
 }
 
 var directiveWords = map[string]bool{"import": true, "package": true, "func": true, "extern": true, "verify": true, "props": true, "trusted": true,
-	"pure": true, "ghost": true, "opaque": true, "nooverflow": true, "calls-back": true, "os-calls-only": true, "interference": true, "requires": true, "ensures": true, "ensures-local": true, "ensures-ghost": true, "modifies": true,
+	"pure": true, "ghost": true, "opaque": true, "nooverflow": true, "dead-return": true, "calls-back": true, "os-calls-only": true, "interference": true, "requires": true, "ensures": true, "ensures-local": true, "ensures-ghost": true, "modifies": true,
 	"loop": true, "callback": true, "at": true, "lemma": true, "global": true, "axiom": true}
 
 func startsWithDirective(body string) bool {
